@@ -187,6 +187,12 @@ def check(prog, run):
             if ex[0] == "bin":
                 desc = sym.show(ex)
                 a, b = ex[2], ex[3]
+                op = ex[1]
+                if b[0] == "arg" and a[0] != "arg":
+                    # mirrored spelling `last > dts` of `dts < last`
+                    a, b = b, a
+                    op = {"Gt": "Lt", "Lt": "Gt", "Ge": "Le", "Le": "Ge"}.get(op, op)
+                    ex = (ex[0], op, a, b)
                 lhs_param = a[0] == "arg" and a[2] == "dts"
                 rhs_state = any(x[0] == "load" and x[1].startswith("arg1.") for x in sym.walk(b))
                 # the error arm must be the comparison-true arm
